@@ -4,4 +4,6 @@ Extraction Language OCaml.
 Extraction "model.ml"
   xb_zadd xb_zmul xb_zdiv xb_zmod xb_zopp xb_zltb xb_nadd xb_nmul xb_ndiv xb_nmod xb_z_of_n xb_n_of_z xb_n_of_nat xb_nat_of_n xb_keep
   merge_server merge_client store_server_toy store_client_toy hash_users toy_hash
-  link_guard link_guard_v0 simple_link parse_url_port parse_port_range flat_binding flat_ok atoi.
+  link_guard link_guard_v0 simple_link parse_url_port parse_port_range flat_binding flat_ok atoi
+  validate_user validate_profile validate_server_patch validate_full_server validate_client_patch validate_full_client
+  export_server link_as_parsed simple_view.
